@@ -4,6 +4,7 @@
 """Defines a polyhedron."""
 
 import warnings
+from copy import copy
 from functools import cached_property
 
 import numpy as np
@@ -132,7 +133,7 @@ class Polyhedron(Shape3D):
 
     def __init__(self, vertices, faces, faces_are_convex=None):
         self._vertices = np.array(vertices, dtype=np.float64)
-        self._faces = [face for face in faces]
+        self._faces = [copy(face) for face in faces]
         if faces_are_convex is None:
             faces_are_convex = all(len(face) == 3 for face in faces)
         self._faces_are_convex = faces_are_convex
